@@ -115,11 +115,28 @@ def minimizeOne (positions : List Pos) : Except KmerErr (List Pos) :=
       | s :: ss => [(minInt ss s, none)]
     .ok (f ++ b)
 
+/-- map with the first error winning (the Python loop raises at the first k-mer with a middle search) -/
+def mapE (f : α → Except ε β) : List α → Except ε (List β)
+  | [] => .ok []
+  | x :: xs =>
+    match f x with
+    | .error e => .error e
+    | .ok y =>
+      match mapE f xs with
+      | .error e => .error e
+      | .ok ys => .ok (y :: ys)
+
+/-- the `(kmer, start, stop)` triples kept for k-mer `k` -/
+def minimizeFor (l : List (Bytes × Pos)) (k : Bytes) : Except KmerErr (List (Bytes × Pos)) :=
+  match minimizeOne ((l.filter (·.1 == k)).map (·.2)) with
+  | .error e => .error e
+  | .ok ps => .ok (ps.map (fun p => (k, p)))
+
 /-- `minimize_kmer_search_list` on a list of `(kmer, start, stop)`; result sorted by k-mer -/
 def minimizeKmerSearchList (l : List (Bytes × Pos)) : Except KmerErr (List (Bytes × Pos)) :=
-  let kmers := sortUniq bytesLt (l.map (·.1))
-  (kmers.mapM (fun k => (minimizeOne ((l.filter (·.1 == k)).map (·.2))).map (fun ps => ps.map (fun p => (k, p))))).map
-    List.flatten
+  match mapE (minimizeFor l) (sortUniq bytesLt (l.map (·.1))) with
+  | .error e => .error e
+  | .ok ls => .ok ls.flatten
 
 /-- one element of `positions_and_kmers` -/
 structure Entry where
